@@ -301,6 +301,7 @@ def history_bmc(e, code, maps, q, res, depth, registered, g,
         present = [BoolVal(False)] * NS
         idx = [bv(0, 8)] * NS
     age = [bv(0, 8)] * NS            # deliveries of this frame so far
+    deliveries = bv(0, 8)
     tstreak = bv(0, 8)               # consecutive deliveries returned passive
     bad_tstreak = []
     streak = bv(0, 8)                # consecutive deliveries without RUN
@@ -310,7 +311,7 @@ def history_bmc(e, code, maps, q, res, depth, registered, g,
     for stp in range(depth):
         act = BitVec(f"act{stp}", 8)     # 0..2 deliver k, 3..5 lose k, 6 inject
         trace_vars.append(act)
-        cons.append(ULT(act, 7))
+        cons.append(ULT(act, 8))         # 7 = nothing happens
         for k in range(NS):
             cons.append(Implies(Or(act == k, act == 3 + k), present[k]))
         cons.append(Implies(act == 6, Not(And(*present))))
@@ -350,6 +351,9 @@ def history_bmc(e, code, maps, q, res, depth, registered, g,
         ps2 = BitVec(f"pstreak{stp + 1}", 8)
         cons.append(ps2 == npstreak)
         pstreak = ps2
+        dl2 = BitVec(f"deliveries{stp + 1}", 8)
+        cons.append(dl2 == If(ULT(act, 3), deliveries + 1, deliveries))
+        deliveries = dl2
         ts2 = BitVec(f"tstreak{stp + 1}", 8)
         cons.append(ts2 == ntstreak)
         tstreak = ts2
@@ -368,12 +372,13 @@ def history_bmc(e, code, maps, q, res, depth, registered, g,
     res["states"] += depth
     return dict(cons=cons, streak=bad_streak, drop=bad_drop, age=bad_age,
                 tv=trace_vars, S=S, pstreak=bad_pstreak, tstreak=bad_tstreak,
-                left=Or(*present))
+                left=And(Or(*present), UGE(deliveries, bv(6, 8))),
+                deliveries=deliveries)
 
 
 def decode_trace(m, tv):
     names = ["deliver0", "deliver1", "deliver2", "lose0", "lose1", "lose2",
-             "inject"]
+             "inject", "idle"]
     return [names[m.eval(a, model_completion=True).as_long()] for a in tv]
 
 
@@ -390,6 +395,8 @@ def replay_history(code, maps, e, c0, g, registered, actions, start=None):
     log = []
     streak = worst = 0
     for a in actions:
+        if a == "idle":
+            continue
         if a == "inject":
             k = slots.index(None)
             slots[k] = dict(idx=0, age=0)
@@ -490,12 +497,13 @@ def main(tier, replay_file=None):
                                 "bus (at least every second frame reaches "
                                 "user space)")]),
                 (False, dict(allow_inject=False, arbitrary_start=True), [
-                    ("age", "without further injection, from any counter and "
-                            "any <=3 frames in flight, no frame is returned to "
-                            "the bus 3 times"),
-                    ("left", "without further injection every frame has "
-                             "reached user space or was lost after "
-                             f"{depth} steps of delivery/loss")]),
+                    ("tstreak", "from any counter and any <=3 frames in "
+                                "flight: never 2 consecutive frames returned "
+                                "to the bus"),
+                    ("left", "from any counter and any <=3 frames in flight, "
+                             "without further injection no frame is left in "
+                             "flight after 6 deliveries (none circulates "
+                             "forever)")]),
             ]
             for registered, kw, checks in runs_:
                 B = history_bmc(e, code, maps, q, res, depth, registered, gg, **kw)
@@ -541,9 +549,11 @@ def main(tier, replay_file=None):
                     # consecutive dispatcher passes without the program)
                     r, m = q.check(*cons, Or(*B["streak"]))
                     info.append(dict(group=gg, stricter_reading_reachable=r))
-                r, m = q.check(*cons, tv[-1] == 0)
-                res["vacuity"].append((f"{tag} {kw}: a history of full depth "
-                                       "ending in a delivery exists", r == "sat"))
+                r, m = q.check(*cons, UGE(B["deliveries"], bv(3, 8)),
+                               ULT(tv[-1], 3) if kw.get("allow_inject", True)
+                               else BoolVal(True))
+                res["vacuity"].append((f"{tag} {kw}: a history with >= 3 "
+                                       "deliveries exists", r == "sat"))
                 if r == "sat" and len(res["samples"]) < 6:
                     res["samples"].append(dict(history=decode_trace(m, tv),
                                                group=tag))
